@@ -47,7 +47,8 @@ func (c *consumption) Close() error {
 	}
 
 	c.closed = true
-	c.recvQueue.Signal()
+	// 入列一个 nil 唤醒处理协程；直接 Signal 可能丢失在 closed 检查与 Wait 之间
+	c.recvQueue.Push(nil)
 	return nil
 }
 
